@@ -34,6 +34,7 @@ Op(op, a, n) == [op |-> op, a |-> a, n |-> n, fs |-> <<>>]
 Ops == {Op("open", m, 0) : m \in Modes}
        \cup {[op |-> "readm", a |-> "", n |-> 0, fs |-> f] : f \in MFmts}
        \cup {Op("read", "", n) : n \in RCounts}
+       \cup {Op("read", c, 0) : c \in IF "rest" \in Extra THEN {"-1", "2^40"} ELSE {}}
        \cup {Op("write", "", n) : n \in WCounts}
        \cup {Op("seek", w, k) : w \in {"set", "cur", "end"}, k \in SOffs}
        \cup {Op("setvbuf", v, k) : v \in VBufs, k \in VSizes}
@@ -94,7 +95,7 @@ TypeOK ==
           /\ (st.len > 0 => s[1].x = 0 /\ s[Len(s)].x + s[Len(s)].n = st.len)
           /\ \A i \in 1..(Len(s) - 1) : s[i].x + s[i].n = s[i + 1].x
           /\ \A i \in DOMAIN s : s[i].k = "b" => s[i].x + s[i].n <= st.bl   \* base bytes only below bl
-    /\ st.pend => (st.buf # "no" /\ st.opened /\ ~st.closed)
+    /\ st.pend => (st.opened /\ ~st.closed)
     /\ ~st.ex => (st.len = 0 /\ ~st.opened)
     /\ st.it \in {"none", "cur", "old"} /\ (st.it # "none" => st.opened)
 
@@ -153,7 +154,7 @@ MC_MultiFmts == {<<x, y>> : x \in MC_Atoms, y \in MC_Atoms} \cup
                 {<<F_c(2), F_c(1), x>> : x \in MC_Atoms} \cup
                 {<<F_c(4096), F_c(1), F_a>>, <<F_c(5000), F_a>>, <<F_l, F_c(4096), F_l>>}
 MC_MultiLays == {<<"num", 4>>, <<"per", 37>>}
-MC_AllExtra == {"seek0", "seek1", "getiter", "calliter", "lines", "readline", "readall", "readnum", "flush", "close", "peek"}
+MC_AllExtra == {"rest", "seek0", "seek1", "getiter", "calliter", "lines", "readline", "readall", "readnum", "flush", "close", "peek"}
 
 (* generation-only filter of the stream-buffer slices: once setvbuf gave a
    size b, only write sizes around b are exported (b-1, b, b+1, 2b+1, > 4096) *)
@@ -168,4 +169,5 @@ CountOp(h, name) == Len(SelectSeq(h, LAMBDA x : x.op = name))
 Guided(k) == CountOp(hist', "write") <= k /\ CountOp(hist', "setvbuf") <= 1
 GenPrintG1 == Guided(1) /\ WriteRel /\ GenPrint
 GenPrintG2 == Guided(2) /\ WriteRel /\ GenPrint
+GenPrintG3 == CountOp(hist', "write") <= 2 /\ CountOp(hist', "setvbuf") <= 2 /\ GenPrint
 =============================================================================
